@@ -40,6 +40,7 @@ import (
 	"fmt"
 	"os"
 	"path/filepath"
+	"runtime/pprof"
 	"sort"
 	"strings"
 	"sync"
@@ -230,6 +231,16 @@ func runHistory(r *vk.Run, base string, h History, fhReserved, canClose bool, bo
 // Run is the check entry point.
 func Run(r *vk.Run) {
 	world.Silence()
+	if p := os.Getenv("C15_DEV_HEAPPROF"); p != "" {
+		// development aid: heap profile after 12 s
+		go func() {
+			time.Sleep(70 * time.Second)
+			if f, err := os.Create(p); err == nil {
+				_ = pprof.WriteHeapProfile(f)
+				f.Close()
+			}
+		}()
+	}
 	r.Rule = "(1) seeded histories of 5-40 blocks (1-5 'key=value' txs over a 15-key alphabet with path aliases, padding and reserved look-alikes; 18% refused blocks: no '=', empty or blank key, genesis key aliases, always behind state-changing valid txs, some in blocks of 63-1025 txs) executed on two real KVExecutor instances with independently generated call sequences (InitChain placement/repeats, SetFinal policy each|lag2|sparse|late|never|early, InjectTx/GetTxs incl. the block's own txs, reopen in process or by child processes, re-execution of the tip block, re-execution of an older block in 1 history of 6, refused block offered or not, empty-block observations); regions: clean (no SetFinal, no tx on /finalizedHeight), setfinal (different SetFinal timing), fhtx (txs writing /finalizedHeight); (2) concurrent cases: one instance executes 8-15 blocks (large refused and large valid ones among them) while other goroutines call SetFinal / InjectTx / GetTxs / InitChain without pause, compared block by block with an instance fed the same blocks alone, in child processes (race detector when built with -race); (3) kill cases: a child process is killed at every write of a call sequence on the real store (before / after the write), a new process reopens, initialises and continues. non-trivial = >=1 refused block, reopen or SetFinal (1); every kind of background call overlapped an execution (2); the cut was reached (3); distinct by region + block kinds + call-kind sequence of both instances, resp. block kinds, resp. cut position"
 	r.Assume("the deciding oracle is relational: the root first seen for a canonical history (ordered txs of all accepted first executions; empty blocks and block boundaries do not count) must be seen again whenever that history recurs; the reference model (sorted 'key:value;' over path-normalised keys) is a second opinion: clause model-agrees / counters model_*_not_judged")
 	r.Assume("malformed = no '=' or nothing before the first '=' (documented format); every other transaction string is held to ONE verdict: offered alone on a scratch instance once, remembered, and compared with every block verdict")
